@@ -60,6 +60,8 @@ func (v Version) write(raw afero.Fs, dir string) {
 	// (which concerns the listing of entries, not the content of a version)
 	_ = afero.WriteFile(raw, filepath.Join(dir, fmt.Sprintf("v%d.log", v.ID)), []byte(fmt.Sprintf("log of version %d", v.ID)), 0o644)
 	_ = afero.WriteFile(raw, filepath.Join(dir, "sub", fmt.Sprintf("trace-v%d.log", v.ID)), []byte("trace"), 0o644)
+	// a file name with a backslash in it (an ordinary character of a name on this platform) and one with blanks
+	_ = afero.WriteFile(raw, filepath.Join(dir, "sub", "back\\slash v.txt"), []byte(fmt.Sprintf("backslash %d", v.ID)), 0o644)
 	// a genuine archive inside the version: it is content like any other and must come back as the file it is
 	var zb bytes.Buffer
 	zw := zip.NewWriter(&zb)
@@ -505,6 +507,9 @@ type SeqOp struct {
 	Version int    `json:"version,omitempty"`
 	FaultAt int64  `json:"fault_at,omitempty"` // store only: 0 none
 	Fault   string `json:"fault,omitempty"`
+	// FaultOn (replays): instead of an index, the n-th operation of that kind on the entry of the key in the remote
+	// storage ("stat-of-the-entry:3"): survives changes of what a version contains
+	FaultOn string `json:"fault_on,omitempty"`
 }
 
 type SeqCase struct {
@@ -574,6 +579,25 @@ func checkSeq(t ev.T, test string, c SeqCase) {
 			var n int64
 			faulted := false
 			hashFault := false
+			if op.FaultOn != "" {
+				parts := strings.SplitN(op.FaultOn, ":", 2)
+				kind, nth := strings.TrimSuffix(parts[0], "-of-the-entry"), int64(1)
+				if len(parts) == 2 {
+					fmt.Sscanf(parts[1], "%d", &nth)
+				}
+				entry := filepath.Join(e.remote, key)
+				var seen int64
+				e.box.Backend.FaultAt = func(o *fsx.Op, _ int64) *fsx.Fault {
+					if o.Client != clName(cl.cl) || o.Kind != kind || o.Path != entry {
+						return nil
+					}
+					if seen++; seen != nth {
+						return nil
+					}
+					faulted = true
+					return &fsx.Fault{Kind: "error"}
+				}
+			}
 			if op.FaultAt > 0 {
 				name := ""
 				for nm, x := range clients {
